@@ -610,3 +610,122 @@ def find_protocol(ctx):
             marks = [b for b, blk in fn.blocks.items() if "cond" in blk and ".mark()" in fn.expr(blk["cond"])]
             ctx.check(len(marks) >= 2, rid, inst + "#mark-tests", "%d mark tests (start node, current node)" % len(marks),
                       "find() must test the delete mark of its start node and of every visited node", fn.where(), fn=fn)
+
+
+# ---------------------------------------------------------------------------------------------------------------
+def guard_deref_after_release(ctx, file_suffixes, rid="GUARD.deref-after-release"):
+    """typestate of guards held by container code (not the guard implementation itself): released -> no dereference"""
+    ctx.rule(rid, "in container code, a guard_ptr (local, parameter or plain member of one: 'info.cur') is not dereferenced (operator->, operator*) "
+                  "on any path after it gave up its protection (reset(), reclaim(), failed acquire_if_equal, moved from) unless it was "
+                  "re-acquired / re-assigned in between: the node may be freed as soon as the protection is gone")
+    from .progress import _lname
+    n_inst = 0
+    for fn in ctx.facts.fns:
+        if not any(s in fn.file for s in file_suffixes) or "/reclamation/" in fn.file:
+            continue
+        if fn.inlined_helper:
+            continue
+        rel = {}    # storage name -> release events
+        deref = {}  # storage name -> deref events
+        kills = {}  # storage name -> (re)acquiring events
+        for b, i, e, n in fn.events():
+            k = fn.kids(e)
+            if n["k"] == "call" and n.get("member") and k:
+                nm = _lname(fn, k[0])
+                t = fn.nodes[k[0]].get("t", "")
+                if not nm or "guard_ptr" not in t:
+                    continue
+                leaf = n.get("callee", "?").split("::")[-1]
+                if leaf in ("reset", "reclaim"):
+                    rel.setdefault(nm, []).append(e)
+                elif leaf in ("operator->", "operator*"):
+                    deref.setdefault(nm, []).append(e)
+                elif leaf in ("acquire", "acquire_if_equal", "operator=", "swap"):
+                    kills.setdefault(nm, []).append(e)
+            elif n["k"] == "call" and n.get("callee") == "std::move" and k:
+                nm = _lname(fn, k[0])
+                if nm and "guard_ptr" in fn.nodes[k[0]].get("t", "") and _consumed(fn, e):
+                    rel.setdefault(nm, []).append(e)
+            elif n["k"] == "call" and n.get("callee", "").endswith("::swap") and not n.get("member"):
+                for a_ in k:
+                    nm = _lname(fn, a_)
+                    if nm:
+                        kills.setdefault(nm, []).append(e)
+            elif n["k"] == "decl":
+                for v in n["vars"]:
+                    if "guard_ptr" in v.get("t", ""):
+                        kills.setdefault(v["name"], []).append(e)
+        for nm, rs in rel.items():
+            ds = deref.get(nm, [])
+            ks = set(kills.get(nm, []))
+            for r in rs:
+                bad = None
+                for d in ds:
+                    if d == r or d in fn.subtree(r):
+                        continue
+                    if _reaches_without(fn, r, d, ks):
+                        bad = d
+                        break
+                n_inst += 1
+                inst = "%s#%s" % (fn.pat, nm)
+                if bad is not None:
+                    ctx.bad(rid, inst, "'%s' is dereferenced at line %d after it gave up its protection at line %d (%s) without being re-acquired in between" % (
+                        nm, fn.nodes[bad].get("l", 0), fn.nodes[r].get("l", 0), fn.expr(r)[:60]), fn.where(bad), fn=fn)
+                else:
+                    ctx.ok(rid, inst, "no dereference of '%s' reachable after %s" % (nm, fn.expr(r)[:40]), fn.where(r), fn=fn)
+        # failed acquire_if_equal leaves the guard empty: no dereference on the failure edge before a re-acquisition
+        for nm, ks_ in kills.items():
+            for a in ks_:
+                an = fn.nodes[a]
+                if an["k"] != "call" or not an.get("callee", "").endswith("acquire_if_equal"):
+                    continue
+                ds = deref.get(nm, [])
+                if not ds:
+                    continue
+                fail_edges, _n = flow.licensed_edges(fn, lambda f, nid, a=a: (False if nid == a else None))
+                if not fail_edges:
+                    continue
+                others = set(kills.get(nm, [])) - {a}
+                bad = None
+                for (b0, s0) in fail_edges:
+                    for d in ds:
+                        if _block_reaches_event(fn, s0, d, others | {a}):
+                            bad = d
+                            break
+                    if bad is not None:
+                        break
+                n_inst += 1
+                inst = "%s#%s|acquire_if_equal-failed" % (fn.pat, nm)
+                if bad is not None:
+                    ctx.bad(rid, inst, "'%s' is dereferenced at line %d on a path where acquire_if_equal (line %d) failed and left the guard empty" % (
+                        nm, fn.nodes[bad].get("l", 0), an.get("l", 0)), fn.where(bad), fn=fn)
+                else:
+                    ctx.ok(rid, inst, "no dereference on the failure side of acquire_if_equal", fn.where(a), fn=fn)
+    return n_inst
+
+
+def _block_reaches_event(fn, start_block, b, kills):
+    """is event b reachable from the beginning of start_block without passing a kill event?"""
+    pos = fn.pos()
+    pb = pos.get(b)
+    if pb is None:
+        return False
+    kblocks = {}
+    for k in kills:
+        if k in pos:
+            kblocks.setdefault(pos[k][0], []).append(pos[k][1])
+    seen = set()
+    st = [start_block]
+    while st:
+        x = st.pop()
+        if x in seen:
+            continue
+        seen.add(x)
+        ks = kblocks.get(x, [])
+        if x == pb[0]:
+            if not any(ki < pb[1] for ki in ks):
+                return True
+        if ks:
+            continue
+        st.extend(s_ for s_ in fn.blocks[x]["succ"] if s_ is not None)
+    return False
